@@ -1,6 +1,7 @@
 // Native replay for C03 (row values): a system-matrix row derived from a symmetry-related row equals the row computed
 // without symmetries - same voxels, values equal up to rounding - for 1..4 tangential rays per bin and several symmetry sets.
-// usage: c03_rows_replay      exit 0 "REPLAY ok"; exit 1 + CONFIRMED line otherwise
+// usage: c03_rows_replay [setup]   (setup: histories of set_up calls for different images: rows must equal those of a freshly set-up matrix)
+//        exit 0 "REPLAY ok"; exit 1 + CONFIRMED line otherwise
 #include "stir/recon_buildblock/ProjMatrixByBinUsingRayTracing.h"
 #include "stir/recon_buildblock/ProjMatrixElemsForOneBin.h"
 #include "stir/ProjDataInfo.h"
@@ -28,8 +29,70 @@ static shared_ptr<ProjMatrixByBinUsingRayTracing> mk(const Sw& w, int rays, bool
   pm->set_up(pdi, img);
   return pm;
 }
-int main()
+
+// histories: set_up(A) -> rows requested -> [a symmetry switch changed] -> set_up(B): rows for B must be those of a fresh matrix set up for B
+static bool rows_as_fresh(ProjMatrixByBinUsingRayTracing& pm, const Sw& w, const shared_ptr<const ProjDataInfo>& pdi, const shared_ptr<const DiscretisedDensity<3, float>>& B, const char* history)
 {
+  auto fresh = mk(w, 1, false, pdi, B);
+  CartesianCoordinate3D<int> lo, hi;
+  dynamic_cast<const VoxelsOnCartesianGrid<float>&>(*B).get_regular_range(lo, hi);
+  for (int seg = pdi->get_min_segment_num(); seg <= pdi->get_max_segment_num(); ++seg)
+    for (int view = 0; view < pdi->get_num_views(); view += 5)
+      for (int tang = pdi->get_min_tangential_pos_num(); tang <= pdi->get_max_tangential_pos_num(); ++tang)
+        {
+          const Bin bin(seg, view, pdi->get_min_axial_pos_num(seg) + 1, tang);
+          ProjMatrixElemsForOneBin a, b;
+          fresh->get_proj_matrix_elems_for_one_bin(a, bin);
+          pm.get_proj_matrix_elems_for_one_bin(b, bin);
+          for (auto it = b.begin(); it != b.end(); ++it)
+            if (it->coord1() < lo[1] || it->coord1() > hi[1] || it->coord2() < lo[2] || it->coord2() > hi[2] || it->coord3() < lo[3] || it->coord3() > hi[3])
+              {
+                std::printf("CONFIRMED %s: row of bin (seg %d, view %d, tang %d) refers to voxel (%d,%d,%d) outside the image the matrix was last set up for\n", history, seg, view, tang,
+                            it->coord1(), it->coord2(), it->coord3());
+                return false;
+              }
+          a.sort(); b.sort();
+          if (a.size() != b.size())
+            {
+              std::printf("CONFIRMED %s: row of bin (seg %d, view %d, tang %d) has %d elements, a freshly set-up matrix gives %d\n", history, seg, view, tang, (int)b.size(), (int)a.size());
+              return false;
+            }
+        }
+  return true;
+}
+static int setup_histories()
+{
+  Verbosity::set(0);
+  shared_ptr<Scanner> scanner(new Scanner(Scanner::E931));
+  shared_ptr<ProjDataInfo> pdi(ProjDataInfo::ProjDataInfoCTI(scanner, 1, 1, scanner->get_num_detectors_per_ring() / 2, 32));
+  shared_ptr<DiscretisedDensity<3, float>> A(new VoxelsOnCartesianGrid<float>(*pdi, 1.F, CartesianCoordinate3D<float>(0, 0, 0), CartesianCoordinate3D<int>(-1, 41, 41)));
+  shared_ptr<DiscretisedDensity<3, float>> Bsmall(new VoxelsOnCartesianGrid<float>(*pdi, 1.F, CartesianCoordinate3D<float>(0, 0, 0), CartesianCoordinate3D<int>(-1, 15, 15)));
+  shared_ptr<DiscretisedDensity<3, float>> Bzoom(new VoxelsOnCartesianGrid<float>(*pdi, 0.5F, CartesianCoordinate3D<float>(0, 0, 0), CartesianCoordinate3D<int>(-1, 21, 21)));
+  const Sw all = { "all", true, true, true, true, true };
+  for (int cache = 0; cache < 2; ++cache)
+    {
+      {
+        auto pm = mk(all, 1, cache, pdi, A);
+        ProjMatrixElemsForOneBin r;
+        for (int t = -10; t <= 10; ++t) pm->get_proj_matrix_elems_for_one_bin(r, Bin(0, 3, 2, t));
+        pm->set_up(pdi, Bsmall);
+        if (!rows_as_fresh(*pm, all, pdi, Bsmall, cache ? "set_up(41x41 image), rows requested, set_up(15x15 image, same voxel size), cache on" : "set_up(41x41 image), set_up(15x15 image, same voxel size), cache off")) return 1;
+      }
+      {
+        auto pm = mk(all, 1, cache, pdi, A);
+        ProjMatrixElemsForOneBin r;
+        for (int seg = -1; seg <= 1; ++seg) for (int v = 0; v < pdi->get_num_views(); v += 5) for (int t = -16; t <= 15; ++t) pm->get_proj_matrix_elems_for_one_bin(r, Bin(seg, v, 2, t));
+        pm->set_do_symmetry_swap_s(false);
+        pm->set_up(pdi, Bzoom);
+        Sw w = all; w.s = false;
+        if (!rows_as_fresh(*pm, w, pdi, Bzoom, cache ? "set_up(A), rows requested, set_do_symmetry_swap_s(false), set_up(image with another voxel size), cache on" : "set_up(A), switch changed, set_up(other voxel size), cache off")) return 1;
+      }
+    }
+  return 0;
+}
+int main(int argc, char** argv)
+{
+  if (argc > 1) { try { const int rc = setup_histories(); if (!rc) std::printf("REPLAY ok\n"); return rc; } catch (...) { std::printf("exception\n"); return 3; } }
   try
     {
       Verbosity::set(0);
